@@ -161,6 +161,7 @@ class World(object):
         self.lines = []
         self.meta = dict(meta or {})
         self.depth = 0; self.cur = None; self.segments = 0; self.reactions = {}
+        self.fired = {}; self.fire_limit = 12
 
     # ------------------------------------------------------------------ recording
     def emit(self, stim):
@@ -337,6 +338,8 @@ class World(object):
 
     def fire(self, dc):
         """run pending call dc (it must have the earliest deadline); time jumps to its deadline"""
+        lab = label(dc.func, dc.args)
+        self.fired[(lab["fn"], lab["id"])] = self.fired.get((lab["fn"], lab["id"]), 0) + 1
         return self.run({"op": "fire", "tm": dc.vid}, lambda: clock.fire(dc))
 
     def pokeid(self, n):
@@ -359,16 +362,12 @@ class World(object):
         ps = clock.pending()
         return [c for c in ps if c.at == ps[0].at] if ps else []
 
-    @staticmethod
-    def in_range(dc):
-        """driver guard (no judgement): TLC computes with 32-bit integers, so a retry timer whose NEXT delay needs
-        factor^n * size >= 2^30 is not fired any more (the history simply ends earlier)"""
-        req = dc.args[0] if dc.args else None
-        iv = getattr(req, "interval", None)
-        k = getattr(iv, "_k", None)
-        if k is not None and hasattr(req, "encoded") and req.encoded is not None:
-            return k * len(req.encoded) < 2 ** 30 and k * getattr(iv, "factor", 1) < 2 ** 30
-        return True
+    def in_range(self, dc):
+        """driver guard (no judgement): TLC computes with 32-bit integers and the PUBLISH retry law needs factor^n * size,
+        so one and the same timer chain (callback name + packet id) is fired at most `fire_limit` times (12: enough for
+        factor 3 and packets up to 1 KB; the retry family uses factors <= 2 and raises the limit)"""
+        lab = label(dc.func, dc.args)
+        return self.fired.get((lab["fn"], lab["id"]), 0) < self.fire_limit
 
     def drain(self, max_fires=200, horizon=None):
         """fire timers in deadline order until none is left or the budget is used up"""
